@@ -40,3 +40,8 @@ Print Assumptions C32_hex_roundtrip.
 Theorem C32_oracle_on_model : forall i, oracle i (model_obs i) = true.
 Proof. exact oracle_on_model. Qed.
 Print Assumptions C32_oracle_on_model.
+
+Theorem C32_diff_counts :
+  forall a b, count_kind (patch_stmts a b) = (n_type 0 (diff a b), n_type 2 (diff a b), n_type 1 (diff a b)).
+Proof. exact diff_counts. Qed.
+Print Assumptions C32_diff_counts.
